@@ -243,54 +243,8 @@ for isa, flags in ISA.items():
 # Every vec3 function must return what the pure code returns for (x, y, z): in particular the result must not depend on the padding lanes.
 # The shims build the arguments from raw lanes twice (paddings p and q) and return both results; the contract states they are identical
 # (same bits or both NaN) for all lane values; operator==/!= are in addition stated against the three scalar comparisons.
-dpad = P.driver('c03_pad', ['<glm/glm.hpp>', '<glm/gtx/norm.hpp>'])
-_mk = lambda v, p: 'V %s_%s; %s_%s.data = _mm_set_ps(%s%s, %sz, %sy, %sx);' % (v.upper(), p, v.upper(), p, v, p, v, v, v)
-_ins2 = [('float', n) for n in ('ax', 'ay', 'az', 'ap', 'aq', 'bx', 'by', 'bz', 'bp', 'bq')]
-_ins1 = _ins2[:5]
-_pre2 = 'typedef glm::vec<3, float, glm::aligned_highp> V; ' + _mk('a', 'p') + _mk('a', 'q') + _mk('b', 'p') + _mk('b', 'q')
-_pre1 = 'typedef glm::vec<3, float, glm::aligned_highp> V; ' + _mk('a', 'p') + _mk('a', 'q')
-PAD = [  # (name, arity, result kind, expression over a@ / b@ ('@' = p or q), real)
-    ('dot', 2, 's', 'glm::dot(a@, b@)', 'glm/detail/func_geometric_simd.inl  compute_dot<vec<3, float, Q>, float, true>'),
-    ('length', 1, 's', 'glm::length(a@)', 'glm/detail/func_geometric_simd.inl  compute_length -> dot(vec3)'),
-    ('length2', 1, 's', 'glm::length2(a@)', 'glm/gtx/norm.inl  length2 -> dot(vec3)'),
-    ('distance', 2, 's', 'glm::distance(a@, b@)', 'glm/detail/func_geometric_simd.inl  compute_distance -> length -> dot(vec3)'),
-    ('normalize', 1, 'v', 'glm::normalize(a@)', 'glm/detail/func_geometric.inl  compute_normalize<3, float, aligned> -> dot(vec3)'),
-    ('cross', 2, 'v', 'glm::cross(a@, b@)', 'glm/detail/func_geometric_simd.inl  compute_cross<float, Q, true> (glm_vec4_cross)'),
-    ('reflect', 2, 'v', 'glm::reflect(a@, b@)', 'glm/detail/func_geometric.inl  compute_reflect<3, float, aligned> -> dot(vec3)'),
-    ('faceforward', 2, 'v', 'glm::faceforward(a@, b@, a@)', 'glm/detail/func_geometric.inl  compute_faceforward<3, float, aligned> -> dot(vec3)'),
-    ('op_eq', 2, 'b', 'a@ == b@', 'glm/detail/type_vec3.inl  operator== (compute_equal)'),
-    ('op_ne', 2, 'b', 'a@ != b@', 'glm/detail/type_vec3.inl  operator!='),
-    ('add_then_dot', 2, 's', 'glm::dot(a@ + b@, b@)', 'operator+ (lane-wise, carries the padding) followed by dot(vec3)'),
-    ('div_then_dot', 2, 's', 'glm::dot(a@, V(1.0f) / b@)', 'vec3(1) / d (lane-wise, padding lane 1/bp) followed by dot(vec3): the inverse-direction idiom'),
-]
-for nm, ar, kind, expr, real in PAD:
-    fn = 'glm_pad_%s_v3_f32' % nm
-    body = (_pre2 if ar == 2 else _pre1)
-    expr = expr.replace('a@', 'A_@').replace('b@', 'B_@')
-    ep, eq = expr.replace('@', 'p'), expr.replace('@', 'q')
-    if kind == 's':
-        body += ' out[0] = %s; out[1] = %s;' % (ep, eq)
-        outs = [('float', 'out', 2)]
-        ens = [('result_independent_of_padding_lanes', 'cspec_same32(out[0], out[1])')]
-    elif kind == 'v':
-        body += ' V r = %s; V t = %s; out[0] = r.x; out[1] = r.y; out[2] = r.z; out[3] = t.x; out[4] = t.y; out[5] = t.z;' % (ep, eq)
-        outs = [('float', 'out', 6)]
-        ens = [('component_%d_independent_of_padding_lanes' % i, 'cspec_same32(out[%d], out[%d])' % (i, i + 3)) for i in range(3)]
-    else:
-        body += ' out[0] = (%s) ? 1u : 0u; out[1] = (%s) ? 1u : 0u;' % (ep, eq)
-        outs = [('unsigned', 'out', 2)]
-        cmp3 = '(ax == bx && ay == by && az == bz)'
-        ens = [('result_independent_of_padding_lanes', 'out[0] == out[1]'),
-               ('same_as_three_scalar_comparisons', 'out[0] == (%s ? 1u : 0u)' % (cmp3 if nm == 'op_eq' else '!' + cmp3))]
-    dpad.shim(fn, 'void', _ins2 if ar == 2 else _ins1, body, outs=outs)
-    for isa, flags in ISA.items():
-        tag = 'c03_pad_%s' % isa
-        if tag not in P.builds:
-            P.build(dpad, 'flat', defines=list(SIMD_DEFS) + ['GLM_ENABLE_EXPERIMENTAL'], flags=list(flags), tag=tag)
-        P.contracts.append(Contract(fn, '[SIMD %s, raw padding lanes] %s' % (isa, real), ensures=ens, build=tag, unwind=12,
-                                    uf_float=('fmul', 'fdiv', 'fadd', 'fsub', 'sqrt'), timeout=300, backends=('sat',),
-                                    tier='quick' if isa in ('sse2', 'sse41') else 'thorough'))
-        P.reused.append(('C03', fn + ' [pad]', isa))
+from padfam import add_pad_family
+add_pad_family(P, 'c03', ISA, SIMD_DEFS, reused=P.reused)
 
 # "only lowp types may use hardware reciprocal/rsqrt approximations": a structural obligation on every function under contract here that is not a
 # lowp instantiation - no call reachable from it in the SIMD extraction is an rcp/rsqrt intrinsic (decided by a scan of the IR call graph)
